@@ -327,4 +327,22 @@ _LOAD_CACHE = {}''')],
                 )
                 shells[-1].exponents.flags.writeable = False''',
          why="the caller's exponent arrays become read-only (array flags in the snapshot)"),
+    dict(id="m34_lineiterator_short_read_is_eof", prop="C07", file="iodata/utils.py",
+         old='''        self.lineno += 1
+        return self.stack.pop() if self.stack else next(self.fh)''',
+         new='''        self.lineno += 1
+        if self.stack:
+            return self.stack.pop()
+        # own line buffering on top of the binary layer ("faster than the text layer")
+        st = self.__dict__.setdefault("_lb", {"buf": b"", "eof": False})
+        while b"\\n" not in st["buf"] and not st["eof"]:
+            more = self.fh.buffer.read1(4096)
+            st["buf"] += more
+            if len(more) < 4096:
+                st["eof"] = True  # fewer bytes than asked for: taken for the end of the file
+        if not st["buf"]:
+            raise StopIteration
+        line, sep, st["buf"] = st["buf"].partition(b"\\n")
+        return (line + sep).decode("utf-8", "replace")''',
+         why="a short read is taken for end of file (read-portion differential: pipes, network file systems)"),
 ]
